@@ -347,6 +347,8 @@ class InvariantMonitor(Monitor):
         msgs = self.check_state(snap)
         for key, msg in msgs:
             self.violate("R-inv/state", "invariant", f"commit by {info['task']}: {msg}", key)
+            if key == "dep-cycle":
+                world.request_abort("dependency cycle committed: " + msg[:200])
         if prev is not None:
             for key, msg in self.check_transition(prev, snap):
                 self.violate("R-inv/transition", "transition", f"commit by {info['task']}: {msg}", key)
